@@ -65,6 +65,9 @@ var (
 	// runes (about a second of forward progress on this machine)
 	fwdPattern = `^(?:(?=.*$)a){6000}`
 	fwdInput   = []rune(strings.Repeat("a", 6000) + strings.Repeat("b", 300000))
+	// the same work written out: 4,000 look-aheads in a row, no loop and no backtracking
+	fwdFlatPattern = "^" + strings.Repeat(`(?=.*$)a`, 4000)
+	fwdFlatInput   = []rune(strings.Repeat("a", 4000) + strings.Repeat("b", 300000))
 	// M steps: deadlines more than the clock's 1 s slop apart
 	mixedLong  = 1500 * time.Millisecond
 	mixedShort = 10 * time.Millisecond
@@ -200,16 +203,20 @@ func runTimedHistory(h []tStep, tol time.Duration) (obs []stepObs, snapshots []s
 		switch s.kind {
 		case "C":
 			regexp2.SetTimeoutCheckPeriod(s.d)
-			curPeriod = s.d
+			curPeriod = max(s.d, clockPeriod) // a negative period: the clock does not sleep at all
 		case "F":
-			re := regexp2.MustCompile(fwdPattern, regexp2.None)
+			pat, in := fwdPattern, fwdInput
+			if s.e >= 2 {
+				pat, in = fwdFlatPattern, fwdFlatInput // no loop either: the program counter only ever moves forward
+			}
+			re := regexp2.MustCompile(pat, regexp2.None)
 			re.MatchTimeout = s.d
 			t := time.Now()
 			var err error
 			if s.e%2 == 0 {
-				_, err = re.FindRunesMatch(fwdInput)
+				_, err = re.FindRunesMatch(in)
 			} else {
-				_, err = re.MatchString(string(fwdInput))
+				_, err = re.MatchString(string(in))
 			}
 			lat := time.Since(t)
 			o.latency = lat
@@ -495,6 +502,9 @@ func fixedHistories() [][]tStep {
 		// and raised: the window widens by two periods
 		{T(20), C(30), T(50), T(120), Q(5000), I(5), C(1), I(100), T(20), T(50)},
 		{T(20), Qmax, T(50), S, T(20)}, // a timeout one nanosecond below "never"
+		{F(50, 2), T(20), F(20, 3), Q(50)}, // forward progress through a program without a single backward jump
+		// a negative check period (the clock then never sleeps): timeouts must still fire
+		{C(-1), T(50), Q(50), T(20), F(50, 2), C(1), I(20), T(20)},
 		{R(2, 50), T(20)},
 		{T(20), I(1300), G, R(2, 50), T(20)},
 		{T(50), S, I(300), R(3, 5000), T(20)},
@@ -552,7 +562,7 @@ func randomHistory(rng *rand.Rand) []tStep {
 				h = append(h, tStep{kind: "P", k: 2 + rng.Intn(5)})
 			}
 		case 12:
-			h = append(h, tStep{kind: "F", d: []time.Duration{20, 50, 120}[rng.Intn(3)] * time.Millisecond, e: rng.Intn(2)})
+			h = append(h, tStep{kind: "F", d: []time.Duration{20, 50, 120}[rng.Intn(3)] * time.Millisecond, e: rng.Intn(4)})
 		case 10:
 			h = append(h, tStep{kind: "R", k: 2 + rng.Intn(2), d: []time.Duration{50, 5000}[rng.Intn(2)] * time.Millisecond})
 		case 11:
@@ -768,7 +778,7 @@ func runC14(r *core.Run) int {
 	r.Workers = 1
 	r.Extras["bounds"] = map[string]any{"histories": len(histories), "clock_period": clockPeriod.String(), "window": fmt.Sprintf("[d-%v, d+%v] (+5ms per concurrent match)", earlySlack, lateSlack), "timeouts": "20/50/120 ms", "idles": "5 ms, 300 ms, 1.3 s, 2.5 s", "isolation": "every history runs in its own child process under a watchdog"}
 	return r.Finish(
-		"histories of timed catastrophic matches T(d) through ten entry points (FindRunesMatch, FindStringMatch, MatchString, MatchRunes, Replace, ReplaceFunc, Split, FindAllStringIndex, FindNextMatch, FindStringMatchStartingAt; must fail with a timeout inside [d-5ms, d+40ms]), timed quick matches Q(d) (must not report a timeout), idle gaps shorter and longer than timeout + the clock's 1 s slop (after the long ones the clock goroutine must be gone and timeouts must still fire), StopTimeoutClock calls (must return and leave no clock goroutine) concurrent timed matches with different deadlines P(k), N(k): k quick matches with a generous timeout whose deadline computations are held at the hook point until all have looked at the clock (none may report a timeout), F(d): a match that spends a second in forward progress without ever backtracking (must time out like T), C(p): SetTimeoutCheckPeriod while the clock runs (after one old period deadlines must be honoured at the new precision; the window widens by two periods), Q(max): a timeout of MaxInt64-1 ns (must not fire), R(k): a quick match held between its two lock-free clock reads while k-1 others run to completion, and M(k): one 1.5 s and k-1 10 ms deadlines computed together (the hook point between the unlocked look at the clock's end and its locked extension holds the long one until the others arrive, then lets it go first) on clocks that never ran, were stopped, ran out or are running, with a 1 ms clock period; each history runs in a fresh child process under a watchdog (a match whose timeout never fires cannot hang the check); 32 hand-ordered histories covering every predecessor/successor pair that matters plus seeded random ones; evaluation = one step; non-trivial = distinct history",
+		"histories of timed catastrophic matches T(d) through ten entry points (FindRunesMatch, FindStringMatch, MatchString, MatchRunes, Replace, ReplaceFunc, Split, FindAllStringIndex, FindNextMatch, FindStringMatchStartingAt; must fail with a timeout inside [d-5ms, d+40ms]), timed quick matches Q(d) (must not report a timeout), idle gaps shorter and longer than timeout + the clock's 1 s slop (after the long ones the clock goroutine must be gone and timeouts must still fire), StopTimeoutClock calls (must return and leave no clock goroutine) concurrent timed matches with different deadlines P(k), N(k): k quick matches with a generous timeout whose deadline computations are held at the hook point until all have looked at the clock (none may report a timeout), F(d): a match that spends a second in forward progress without ever backtracking, once as a counted loop and once written out as 4,000 look-aheads in a row without any backward jump (must time out like T), C(p): SetTimeoutCheckPeriod while the clock runs (after one old period deadlines must be honoured at the new precision; the window widens by two periods; a negative period must not switch timeouts off), Q(max): a timeout of MaxInt64-1 ns (must not fire), R(k): a quick match held between its two lock-free clock reads while k-1 others run to completion, and M(k): one 1.5 s and k-1 10 ms deadlines computed together (the hook point between the unlocked look at the clock's end and its locked extension holds the long one until the others arrive, then lets it go first) on clocks that never ran, were stopped, ran out or are running, with a 1 ms clock period; each history runs in a fresh child process under a watchdog (a match whose timeout never fires cannot hang the check); 34 hand-ordered histories covering every predecessor/successor pair that matters plus seeded random ones; evaluation = one step; non-trivial = distinct history",
 		[]string{"wall-clock verdicts: a miss is a suspect, re-executed 3 times in fresh processes with scheduler overshoot measured; a timing miss counts only if it exceeds twice the overshoot measured in the same run (+5 ms); violation only if reproduced 3/3, otherwise inconclusive", "millisecond-level accuracy is not claimed"},
 		map[string]int64{"evaluations": 40, "distinct_nontrivial": 10, "step_T": 10, "step_G": 3, "step_S": 3})
 }
